@@ -624,3 +624,17 @@ package netceptor
 //@   tags C03 C16
 //@   requires pc != nil && cancel != nil
 //@   site call cancel@2 ONLYSERVICEUNKNOWN: [C03 C16] requires msg.Problem == ProblemServiceUnknown && msg.ToNode == remoteAddr.node && msg.ToService == remoteAddr.service
+
+// ---- C10: traceroute probes with every hop budget 0, 1, 2, ... in turn and gives up only after the probe with the
+// ---- node's full forwarding budget
+//@ iface NetcForTraceroute.MaxForwardingHops
+//@   params s
+//@   pure
+//@ func CreateTraceroute$1
+//@   tags C10
+//@   ghostflag probed set call:Ping
+//@   site call Ping STEP: [C10] requires arg1 == target && (flag("probed") ? arg2 == lastarg("Ping", 2) + 1 : arg2 == 0)
+//@   site exit #1 FULLBUDGET: [C10] requires flag("probed") && lastarg("Ping", 2) >= lastcall("MaxForwardingHops", 0)
+//@   site block * EXITS: [C10 C17] requires waits(ctxdone(ctx))
+//@   loop #1
+//@     invariant BUDGET: [C10] 0 <= loopphi(0) && loopphi(0) <= 256 && (loopphi(0) == 0 ? !flag("probed") : flag("probed") && lastarg("Ping", 2) == loopphi(0) - 1)
